@@ -210,6 +210,18 @@ def run(ctx):
     cc.instance('grouping: every id appended once to the group of extract_recording_category(id)', grp.qualname, okg, detail=why)
     if not okg:
         res.add(Finding('C19', 'C19.c', 'R-PROV', grp.file, grp.qualname, grp.node.lineno, 'grouping', why))
+    # the groups are exactly the categories of the given ids: a `defaultdict` creates a group whenever it is *read* by subscript, so the only
+    # subscripts on it are the ones the ids are appended through
+    dd = {t_.id for n in walk_own(grp.node) if isinstance(n, ast.Assign) and isinstance(n.value, ast.Call) and norm(n.value.func).split('.')[-1] == 'defaultdict'
+          for t_ in n.targets if isinstance(t_, ast.Name)}
+    appended_through = {id(x.func.value) for x in ast.walk(grp.node) if isinstance(x, ast.Call) and isinstance(x.func, ast.Attribute) and x.func.attr == 'append'}
+    stray = [x for x in ast.walk(grp.node) if isinstance(x, ast.Subscript) and isinstance(x.value, ast.Name) and x.value.id in dd and
+             isinstance(x.ctx, ast.Load) and id(x) not in appended_through]
+    cc.instance('grouping: no group is created by merely looking one up', grp.qualname, not stray)
+    for x in stray[:1]:
+        res.add(Finding('C19', 'C19.c', 'R-PROV', grp.file, grp.qualname, x.lineno, norm(x)[:60],
+                        '`%s` reads the defaultdict of groups by subscript: that creates an (empty) group for a category none of the given ids belongs to, '
+                        'and a category with an empty id list is looked up in the cassette instead - recordings nobody selected are replayed' % norm(x)[:40]))
     sets = [n for n in ast.walk(grp.node) if isinstance(n, ast.Call) and isinstance(n.func, ast.Name) and n.func.id in ('set', 'frozenset')]
     det = any(isinstance(n, ast.Call) and isinstance(n.func, ast.Name) and n.func.id == 'sorted' for n in ast.walk(grp.node)) and not sets
     cc.instance('deterministic category order (sorted, no set iteration)', grp.qualname, det)
